@@ -2,18 +2,19 @@
 """Stores a confirmed seeded change under /verif/seeded/<name>/ (patch.diff, the demonstration, meta.json).
 usage: seed_save.py <name> <property> <caught_by comma list or -> [note]"""
 import json, os, shutil, sys, subprocess
+SEED_ROOT = __import__('os').environ.get('SEED_ROOT', '/tmp/seed'); MUT_ROOT = __import__('os').environ.get('MUT_ROOT', '/tmp/mut')
 name, prop, caught = sys.argv[1], sys.argv[2], sys.argv[3]
 note = sys.argv[4] if len(sys.argv) > 4 else ''
-src, dst = f'/tmp/seed/{name}', f'/verif/seeded/{name}'
+src, dst = f'{SEED_ROOT}/{name}', f'/verif/seeded/{name}' + os.environ.get('SEED_SUFFIX', '')
 os.makedirs(dst, exist_ok=True)
-shutil.copy(f'/tmp/mut/{name}.patch', f'{dst}/patch.diff')
-res = json.load(open(f'/tmp/mut/{name}.result.json'))
+shutil.copy(f'{MUT_ROOT}/{name}.patch', f'{dst}/patch.diff')
+res = json.load(open(f'{MUT_ROOT}/{name}.result.json'))
 for d in res.get('demo_files', []):
     shutil.copy(f'{src}/{d}', f'{dst}/{os.path.basename(d)}')
 m = res.get('meta', {})
 suite = {}
-if os.path.exists(f'/tmp/mut/{name}.suite.json'):
-    sj = json.load(open(f'/tmp/mut/{name}.suite.json'))
+if os.path.exists(f'{MUT_ROOT}/{name}.suite.json'):
+    sj = json.load(open(f'{MUT_ROOT}/{name}.suite.json'))
     suite = {'repo_head': sj.get('head'), 'passes': sj.get('suite_passes'), 'modules': sj.get('suite'),
              'tests_rerun_alone_after_a_loaded_first_run': sorted(set(sj.get('retried', [])))}
 meta = {
